@@ -156,6 +156,9 @@ def gen_spec(rng, small=False, datatype=None, version=None, names=None, n_events
             spec['analysis'] = rand_pairs(rng, delim, 1, 3, 'A')
             spec['analysis_lead'] = rng.chance(0.7)
             segs.append('ANALYSIS')
+            if rng.chance(0.12):
+                # a damaged ANALYSIS segment (documented: warned about and read as empty)
+                spec['analysis_raw'] = delim + 'Akey' + delim + 'v' + delim + 'unpaired' + delim
         if rng.chance(0.5):
             spec['shuffle'] = rng.randint(0, 10 ** 6)
     rng.shuffle(segs) if rng.chance(0.6) else None
